@@ -2,7 +2,7 @@
 
 import numpy as np
 
-from toqito.channel_ops import choi_to_kraus
+from toqito.channel_ops import choi_to_kraus, kraus_to_choi
 from toqito.matrix_props import is_unitary as is_unitary_matrix
 
 
@@ -69,6 +69,12 @@ def is_unitary(phi: np.ndarray | list[list[np.ndarray]]) -> bool:
     """
     # If the variable `phi` is provided as a ndarray, we assume this is a
     # Choi matrix.
+    # A unitary channel may be given by a redundant (linearly dependent) Kraus list: canonicalise via the Choi matrix.
+    if isinstance(phi, list):
+        try:
+            phi = kraus_to_choi(phi)
+        except ValueError:
+            return False
     if isinstance(phi, np.ndarray):
         try:
             phi = choi_to_kraus(phi)
